@@ -121,6 +121,32 @@ CHECKS += [
              "proof) until those schemes are modelled; 'different polynomials give different roots' rests on hash collision resistance and code "
              "distance, which are not proved."},
 ]
+CHECKS += [
+    {"property_id": "C17",
+     "text": "Coq theorems: KZG10 setup refuses degree zero and serves every degree >= 1; commit and open refuse more coefficients than the key "
+             "supports, a hiding bound beyond the gamma powers, hiding without RNG; Marlin trim refuses a supported degree above the maximum (error), "
+             "a hiding bound beyond the parameters (abort), an enforced bound above the supported degree (error); commit refuses inadmissible degree "
+             "bounds; batch verification reports unknown polynomials and missing evaluations as errors; in-domain KZG10 and Marlin commits/opens are "
+             "served without error or abort. Correspondence: extracted KZG10/Marlin models vs library on out-of-domain requests (result class "
+             "compared) and boundary requests at setup/trim for Marlin, Sonic, PST13, IPA, Hyrax, dropped commitments/evaluations in batch checks; "
+             "the honest C01 scenarios double as the 'in-domain requests never abort' half for all schemes.",
+     "note": COMMON_NOTE + " Which side of a boundary is in the domain follows the code's documented contract (e.g. IPA ignores enforced bounds; KZG10 "
+             "accepts hiding bound 0). multilinear_pc::MultilinearPC and streaming_kzg are not yet exercised by this check."},
+]
+CHECKS += [
+    {"property_id": "C09",
+     "text": "Partial (transparent generator sampling observed, not modelled). Coq theorems: every element KZG10::setup publishes is the stated power of "
+             "one trapdoor (G1 powers, gamma powers up to D+1, negative G2 powers, beta*h), equivalently the pairing identities hold at every index; "
+             "Marlin trim returns faithful sub-keys (prefixes of the parameters, same generators, truthful supported/maximum degree) with shift "
+             "elements g*beta^(D-d) for exactly the sorted de-duplicated enforced bounds, and refuses requests beyond the parameters; prepared "
+             "tables are successive doublings. Correspondence: the library's KZG10::setup under a seeded RNG against the model on the replayed "
+             "trapdoor - every published element compared as [model exponent]*(the library's own base element), prepared tables, sizes; Marlin "
+             "trim keys element by element under unsorted / duplicated / empty / absent bound lists; Sonic trim against the parameters; IPA and "
+             "Hyrax generators: count, validity, non-identity, pairwise distinctness, independence of the caller's RNG, trim slicing.",
+     "note": COMMON_NOTE + " Hash-to-curve sampling of the IPA/Hyrax generators is outside the model: its structural properties are observed on the "
+             "implementation and reported as supporting exploration. PST13 parameters are the subject of C15; multilinear_pc and streaming keys "
+             "are not yet covered."},
+]
 _PENDING = "check not built yet in this round (model and correspondence under construction; see DESIGN.md section 7)"
 _CLAIMED = {c["property_id"] for c in CHECKS}
 NOT_APPLICABLE = [{"property_id": "C%02d" % i, "reason": _PENDING} for i in range(1, 20) if "C%02d" % i not in _CLAIMED]
